@@ -37,11 +37,11 @@ class ReachingDefs:
         self.fn = fn
         self.uses: Dict[ast.Name, FrozenSet[Def]] = {}
         self.defs: List[Def] = []
+        self._cache: Dict[tuple, Def] = {}
         env: Env = {}
         a = fn.args
         for arg in a.posonlyargs + a.args + a.kwonlyargs + ([a.vararg] if a.vararg else []) + ([a.kwarg] if a.kwarg else []):
-            d = Def(arg.arg, "param", None, None, arg)
-            self.defs.append(d)
+            d = self._mk(arg.arg, "param", None, None, arg)
             env[arg.arg] = frozenset([d])
         self._exits: List[Env] = []
         out = self._block(fn.body, env)
@@ -94,10 +94,19 @@ class ReachingDefs:
         self._flush_comps(env)
 
     # ---- binding
+    def _mk(self, name, kind, value, index, node) -> Def:
+        """one Def object per definition site (loops are re-walked until a fixpoint)"""
+        key = (id(node), name, index, kind)
+        d = self._cache.get(key)
+        if d is None:
+            d = Def(name, kind, value, index, node)
+            self._cache[key] = d
+            self.defs.append(d)
+        return d
+
     def _bind(self, target, kind, value, env: Env, node, index=None):
         if isinstance(target, ast.Name):
-            d = Def(target.id, kind, value, index, node)
-            self.defs.append(d)
+            d = self._mk(target.id, kind, value, index, node)
             env[target.id] = frozenset([d])
         elif isinstance(target, (ast.Tuple, ast.List)):
             for i, el in enumerate(target.elts):
@@ -138,8 +147,7 @@ class ReachingDefs:
                 fake = ast.Name(id=st.target.id, ctx=ast.Load())
                 ast.copy_location(fake, st.target)
                 self.uses[fake] = env.get(st.target.id, frozenset())
-                d = Def(st.target.id, "aug", st, None, st)
-                self.defs.append(d)
+                d = self._mk(st.target.id, "aug", st, None, st)
                 env[st.target.id] = frozenset([d])
             else:
                 self._use_env(st.target, env)
@@ -204,8 +212,7 @@ class ReachingDefs:
             for h in st.handlers:
                 he = dict(h_in)
                 if h.name:
-                    d = Def(h.name, "except", h.type, None, h)
-                    self.defs.append(d)
+                    d = self._mk(h.name, "except", h.type, None, h)
                     he[h.name] = frozenset([d])
                 ho = self._block(h.body, he)
                 if not _terminates(h.body):
@@ -219,13 +226,13 @@ class ReachingDefs:
                 res = self._block(st.finalbody, _merge(res, h_in))
             return res
         if isinstance(st, (ast.FunctionDef, ast.AsyncFunctionDef, ast.ClassDef)):
-            d = Def(st.name, "def", st, None, st)
+            d = self._mk(st.name, "def", st, None, st)
             env[st.name] = frozenset([d])
             return env
         if isinstance(st, (ast.Import, ast.ImportFrom)):
             for a in st.names:
                 nm = (a.asname or a.name).split(".")[0]
-                env[nm] = frozenset([Def(nm, "import", st, None, st)])
+                env[nm] = frozenset([self._mk(nm, "import", st, None, st)])
             return env
         return env
 
